@@ -5,6 +5,7 @@ sys.path.insert(0, os.path.dirname(os.path.dirname(os.path.abspath(__file__))))
 if os.environ.get('PYTHONHASHSEED') is None:
     os.environ['PYTHONHASHSEED'] = '0'
     os.execv(sys.executable, [sys.executable] + sys.argv)
+if os.environ.get('VERIF_REPO'): sys.path.insert(0, os.environ['VERIF_REPO'])
 from simkit import runner
 eng, first, n = sys.argv[1], int(sys.argv[2]), int(sys.argv[3])
 from concurrent.futures import ProcessPoolExecutor
